@@ -77,60 +77,72 @@ def run(ctx):
     core.lean_phase(ctx)
     rng = ctx.rng
     reqs, metas = [], []
+
+    def flush():
+        outs = ctx.driver.run(reqs) if reqs else []
+        for req, (replay, info, d, d2, impl_merged), out in zip(reqs, metas, outs):
+            ctx.count("model_requests")
+            mj = out.get("ok")
+            if "ok" not in out:
+                ctx.mismatch("merge", replay, "answer", out)
+                continue
+            if mj is None:
+                ctx.count("model:unmerged" + (":impl-merged" if impl_merged else ""))
+                continue
+            ctx.count("model:merged" + ("" if impl_merged else ":impl-unmerged"))
+            stm, ms = outcome(lambda: info.un_step(mj))
+            dm = apply_doc(ms, d) if stm == "ok" else None
+            if dm is None or not dm.eq(d2):
+                ctx.mismatch("merge", replay, "model's merged step reproduces the two-step result on the real code", {"merged": mj})
+        del reqs[:], metas[:]
+
+    def one_doc(info, d, docs):
+        schema = info.schema
+        for s1, s2 in adjacent_pairs(rng, info, d, docs):
+            if any(getattr(x, "from_", 0) > getattr(x, "to", 0) for x in (s1, s2)):
+                continue   # outside the guard from <= to
+            d1 = apply_doc(s1, d)
+            if d1 is None:
+                continue
+            d2 = apply_doc(s2, d1)
+            if d2 is None:
+                continue
+            stm, merged = outcome(lambda: s1.merge(s2))
+            replay = {"schema": info.name, "doc": d.to_json(), "first": s1.to_json(), "second": s2.to_json()}
+            ctx.case(["merge", info.name, d.to_json(), s1.to_json(), s2.to_json()], nontrivial=stm == "ok" and merged is not None,
+                     sample={"op": "merge", "schema": info.name, "first": s1.to_json(), "second": s2.to_json(),
+                             "merged": merged.to_json() if stm == "ok" and merged is not None else None})
+            if stm != "ok":
+                ctx.violation("merge-raises", f"merge raised {merged}", replay)
+                continue
+            ctx.count(("merged:" if merged is not None else "unmerged:") + type(s1).__name__)
+            if merged is not None:
+                replay["merged"] = merged.to_json()
+                dm = apply_doc(merged, d)
+                if dm is None:
+                    ctx.violation("merged-fails", "the merged step does not apply although the two-step sequence does", replay)
+                elif not dm.eq(d2):
+                    ctx.violation("merged-differs", "the merged step gives a different document than the two steps", dict(replay, two=d2.to_json(), one=dm.to_json()))
+                elif dm.content.size != d2.content.size:
+                    ctx.violation("merged-size", "size delta differs", replay)
+            reqs.append({"op": "merge", "a": info.step(s1), "b": info.step(s2)})
+            metas.append((replay, info, d, d2, merged is not None))
+
     fam = schemas.family()
     for si in range(ctx.budget(14, 60)):
+        if len(reqs) >= 15000:
+            flush()     # keep memory bounded in long runs
         info = fam[si % len(fam)]
         schema = info.schema
         ctx.driver.add_schema(info)
-        docs = [gen.gen_doc(rng, schema, budget=rng.choice([6, 12, 25])) for _ in range(ctx.budget(5, 10))]
-        docs += [x for x in (gen.gen_marky_doc(rng, schema) for _ in range(ctx.budget(2, 4))) if x is not None]
+        docs = [x for x in (ctx.guard(lambda: gen.gen_doc(rng, schema, budget=rng.choice([6, 12, 25])), "gen_doc")
+                            for _ in range(ctx.budget(5, 10))) if x is not None]
+        docs += [x for x in (ctx.guard(lambda: gen.gen_marky_doc(rng, schema), "gen_marky_doc") for _ in range(ctx.budget(2, 4))) if x is not None]
         for d in docs:
             if ctx.time_left() < 0:
                 break
-            for s1, s2 in adjacent_pairs(rng, info, d, docs):
-                if any(getattr(x, "from_", 0) > getattr(x, "to", 0) for x in (s1, s2)):
-                    continue   # outside the guard from <= to
-                d1 = apply_doc(s1, d)
-                if d1 is None:
-                    continue
-                d2 = apply_doc(s2, d1)
-                if d2 is None:
-                    continue
-                stm, merged = outcome(lambda: s1.merge(s2))
-                replay = {"schema": info.name, "doc": d.to_json(), "first": s1.to_json(), "second": s2.to_json()}
-                ctx.case(["merge", info.name, d.to_json(), s1.to_json(), s2.to_json()], nontrivial=stm == "ok" and merged is not None,
-                         sample={"op": "merge", "schema": info.name, "first": s1.to_json(), "second": s2.to_json(),
-                                 "merged": merged.to_json() if stm == "ok" and merged is not None else None})
-                if stm != "ok":
-                    ctx.violation("merge-raises", f"merge raised {merged}", replay)
-                    continue
-                ctx.count(("merged:" if merged is not None else "unmerged:") + type(s1).__name__)
-                if merged is not None:
-                    replay["merged"] = merged.to_json()
-                    dm = apply_doc(merged, d)
-                    if dm is None:
-                        ctx.violation("merged-fails", "the merged step does not apply although the two-step sequence does", replay)
-                    elif not dm.eq(d2):
-                        ctx.violation("merged-differs", "the merged step gives a different document than the two steps", dict(replay, two=d2.to_json(), one=dm.to_json()))
-                    elif dm.content.size != d2.content.size:
-                        ctx.violation("merged-size", "size delta differs", replay)
-                reqs.append({"op": "merge", "a": info.step(s1), "b": info.step(s2)})
-                metas.append((replay, info, d, d2, merged is not None))
-    outs = ctx.driver.run(reqs) if reqs else []
-    for req, (replay, info, d, d2, impl_merged), out in zip(reqs, metas, outs):
-        ctx.count("model_requests")
-        mj = out.get("ok")
-        if "ok" not in out:
-            ctx.mismatch("merge", replay, "answer", out)
-            continue
-        if mj is None:
-            ctx.count("model:unmerged" + (":impl-merged" if impl_merged else ""))
-            continue
-        ctx.count("model:merged" + ("" if impl_merged else ":impl-unmerged"))
-        stm, ms = outcome(lambda: info.un_step(mj))
-        dm = apply_doc(ms, d) if stm == "ok" else None
-        if dm is None or not dm.eq(d2):
-            ctx.mismatch("merge", replay, "model's merged step reproduces the two-step result on the real code", {"merged": mj})
+            ctx.guard(lambda: one_doc(info, d, docs), "merge cases of one document")
+    flush()
     return ctx.finish(
         rule="a case is (document, first step, second step) with the second applying to the result of the first: typing/backspacing "
              "style adjacent replace steps, replace steps with open slices, overlapping/touching mark steps, random pairs; "
